@@ -35,7 +35,7 @@ class C18(Prop):
     rule = ("conversions: every rank row with ties and NaN over <= 3 columns (dense and competition numbering) assembled into profiles, random ones up to 12x12, all tie-breakers; "
             "compute_ordinal_profile on valuations with NaN, with distinct values (compared exactly) and with exact ties (validated with the checker ordinal_ok because numpy's argsort leaves "
             "tie order open); generators: np.random.uniform/normal wrapped in-process, recorded draws replayed by the model (1e-12), parameters (low, high), (mean, variance), seeds, NaN patterns; "
-            "consistency predicate on generated, perturbed and tied valuations. Non-trivial = input has a tie, a NaN or >= 3 columns; distinct by input hash")
+            "consistency predicate on generated, perturbed and tied valuations, and (rejection clause, oracle only) on truncated rankings next to full valuation vectors over a coarse grid (all of m = 4). Non-trivial = input has a tie, a NaN or >= 3 columns; distinct by input hash")
     trusted_base = ["specification-level models ProfModel.v (ranks by counting instead of argsort loops; equal to the code's result wherever that is determined)",
                     "numpy's RNG is an oracle (draws recorded); outputs depending on the order numpy's unstable sort gives to equal keys are validated, not compared"]
     assumptions = ["profiles have at least one rank 1 (the library's validity test); generator profiles are strict"]
@@ -118,6 +118,26 @@ class C18(Prop):
                 V.append(v)
             yield dict(entry="is_consistent_valuation_profile", family=kind, op="consistent", M=P, V=V, seed=i)
 
+        # truncated rankings (top-k lists, k <= m-1) next to FULL valuation vectors over a coarse grid: all of m = 4 over {0,1,2}, single rows (so that no other
+        # row can mask the verdict), then random ones with more columns and a consistent filler row. Only the rejection clause is decided on these.
+        grid = []
+        for kk in (1, 2, 3):
+            for items in itertools.permutations(range(4), kk):
+                row = [None] * 4
+                for r, j in enumerate(items): row[j] = r + 1
+                for v in itertools.product([0.0, 1.0, 2.0], repeat=4):
+                    grid.append((row, list(v)))
+        for i, (row, v) in enumerate(grid):
+            yield dict(entry="is_consistent_valuation_profile", family="truncated_ranking", op="consistent", M=[row], V=[v], seed=i, partial=True)
+        for i in range(150 if tier == "quick" else 3000):
+            m = rng.randint(4, 7); kk = rng.randint(1, m - 1); items = rng.sample(range(m), kk); row = [None] * m
+            for r, j in enumerate(items): row[j] = r + 1
+            v = [float(rng.choice([0, 1, 2, 0.5])) for _ in range(m)]
+            M = [row]; V = [v]
+            if i % 2:
+                full = rng.sample(range(1, m + 1), m); M.append(full); V.append([float(m - r) for r in full])
+            yield dict(entry="is_consistent_valuation_profile", family="truncated_ranking", op="consistent", M=M, V=V, seed=i, partial=True)
+
     def run(self, case):
         import socialchoicekit.profile_utils as PU
         import socialchoicekit.data_generation as DG
@@ -151,6 +171,8 @@ class C18(Prop):
                     acc = "err:" + type(e).__name__
                 return dict(out=o1, draws=d1, again=o2, accepted=acc)
             V = lay(np.array(case["V"], dtype=float), case.get("layout"))
+            if case.get("partial"):
+                return dict(verdict=bool(PU.is_consistent_valuation_profile(PU.ValuationProfile.of(V), PU.Profile.of(A))))
             return dict(verdict=bool(PU.is_consistent_valuation_profile(PU.ValuationProfile.of(V), PU.StrictCompleteProfile.of(A.astype(int)))))
         np.random.uniform, np.random.normal = uni, nor
         try:
@@ -176,7 +198,7 @@ class C18(Prop):
             for row, v in zip(M, V):
                 for a in range(len(row)):
                     for b in range(len(row)):
-                        if row[a] < row[b] and v[b] > v[a] and (v[b] - v[a]) > 2 * (1e-8 + 1e-5 * max(abs(v[a]), abs(v[b]))):
+                        if row[a] is not None and row[b] is not None and row[a] < row[b] and v[b] > v[a] and (v[b] - v[a]) > 2 * (1e-8 + 1e-5 * max(abs(v[a]), abs(v[b]))):
                             clear = True
             if clear and verdict:
                 return ("inversion_accepted", "predicate accepted a profile that values a lower-ranked alternative clearly more")
@@ -241,6 +263,8 @@ class C18(Prop):
 
     def coq(self, case, obs):
         op = case["op"]
+        if op == "consistent" and case.get("partial"):
+            return None      # NaN patterns differ: outside the complete-row model; decided by the oracle (rejection clause only)
         if op == "consistent":
             return ("cons", ct(cmat(case["M"]), cl([cl([cq(frac(x)) for x in r]) for r in case["V"]]), cb(obs["verdict"])))
         if op.startswith("gen"):
